@@ -15,7 +15,7 @@ NOM_NUM = re.compile(r"^nom::number::complete::(le|be)_([ui])(8|16|24|32|64)$")
 NOM_TAKE_C = re.compile(r"^nom::bytes::complete::take::\{closure#0\}$")
 NOM_TAG_C = re.compile(r"^nom::bytes::complete::tag::\{closure#0\}$")
 NOM_TAKE_UNTIL_C = re.compile(r"^nom::bytes::complete::take_until::\{closure#0\}$")
-SPLIT_AT = re.compile(r"slice::<impl \[T\]>::split_at$")
+SPLIT_AT = re.compile(r"slice::<impl \[T\]>::split_at(_mut)?$")
 INDEX = re.compile(r"(ops::Index<.*>>::index|Index::index|ops::IndexMut<.*>>::index_mut|IndexMut::index_mut|slice::index::<impl std::ops::Index(Mut)?<I> for \[T\]>::index(_mut)?)$")
 
 
